@@ -2,6 +2,7 @@ import RawPanelVerif.Lemmas.InBits
 import RawPanelVerif.Lemmas.TotalIn
 import RawPanelVerif.Lemmas.EncSoundAll
 import RawPanelVerif.Lemmas.EncMaskAll
+import RawPanelVerif.Lemmas.EncCarried
 /-!
 # C01 — inbound messages keep their meaning when written as ASCII lines
 
@@ -28,6 +29,21 @@ Main theorems (unbounded in messages, states, ids):
   value), string fields free of `|` and LF (C07's subject), register ids in `[A-Z0-9]*` (FLAG: digits), no `Processors`
   (JSON only), and the `encoding/json` round-trip law for a `SetNetworkConfig` argument (oracle; `witnessOracle` is a
   concrete oracle satisfying it non-trivially, with examples that contain the command).
+
+Fields read only under a condition / not at all:
+* `proto_fields_partition` — every field of the proto definitions reachable from `InboundMessage` is either read by the
+  encoder model (`protoFieldsRead`) or lies under `HWCState.Processors` (`protoFieldsOpaque`: JSON only, outside the
+  domain); no field of an inbound message is ignored unconditionally (the `ein.fields` record compares the two lists with
+  the real protobuf descriptors);
+* `enc_ignores_unread` — the encoder's lines depend on `Model.In.carried m` only: the colour index next to an RGB colour,
+  X / Y of an image without offset flag, the fields of a scale without positive type, the integer value under formatting
+  7 / 10 / 11, the unformatted font size under any other formatting and id / value of a register of unknown kind can hold
+  anything (in particular values coinciding with other fields) without changing a line; `enc_ignores_unread_eq`: two
+  message lists with the same carried parts encode equally.
+
+Calls are independent (the model is a function): the check also runs call sequences on the real encoder — results of
+earlier calls kept and re-read after later calls, two sequences in two goroutines, message objects overwritten in place
+and converted again (`ein.seq`, `ein.par`, `ein.reuse` records), every result judged against the model / Spec of its call.
 
 The check evaluates the same predicates on the implementation's lines with EXACT list equality per message (nothing on
 the inbound side iterates over a Go map, so no permutation is tolerated): `effectsOfIn` on `inDomainIn`, the effects of
@@ -120,6 +136,44 @@ theorem enc_sound_append (O : Oracles) (a b : List InMsg) (ha : inDomainIn O a =
     readInbound O (encIn O (a ++ b)) = readInbound O (encIn O a) ++ readInbound O (encIn O b) := by
   rw [enc_sound O a ha, enc_sound O b hb, enc_sound O (a ++ b) (by
     unfold inDomainIn at *; rw [List.all_append, ha, hb]; rfl), List.flatMap_append]
+
+/-! ## fields read only under a condition -/
+
+/-- the two lists partition the field names of the proto definitions: none in both, none twice -/
+theorem proto_fields_partition :
+    protoFieldsRead.all (fun f => !protoFieldsOpaque.contains f) = true ∧ (protoFieldsRead ++ protoFieldsOpaque).Nodup := by
+  decide +kernel
+
+/-- **the encoder reads a field only where `carried` keeps it** (every message list) -/
+theorem enc_ignores_unread (O : Oracles) (ms : List InMsg) : encIn O (ms.map carried) = encIn O ms :=
+  EncCarried.encIn_carried O ms
+
+/-- two message lists that differ only in fields the encoder does not read (given the others) encode equally -/
+theorem enc_ignores_unread_eq (O : Oracles) (a b : List InMsg) (h : a.map carried = b.map carried) : encIn O a = encIn O b := by
+  rw [← enc_ignores_unread O a, ← enc_ignores_unread O b, h]
+
+/-- arbitrary and coinciding values in unread fields: an index next to RGB, X = Y = W without offset flag, a scale of type
+0 with ranges, a value (= the font size) under formatting 10, a register of kind 7 -/
+def unreadA : List InMsg :=
+  [ { states := [ { ids := [5],
+                    color := some { rgb := some { red := 255, green := 0, blue := 0 }, index := some 9 },
+                    text := some { integerValue := 12, formatting := 10, scale := some { rangeLow := 12, rangeHigh := 12 },
+                                   textStyling := some { unformattedFontSize := 12 } },
+                    gfx := some { w := 8, h := 8, x := 8, y := 8, imageData := [1, 2, 3] } } ],
+      registers := [ { reg := 7, id := asc "A", value := 3 } ] } ]
+
+/-- the same messages with those fields at their defaults -/
+def unreadB : List InMsg :=
+  [ { states := [ { ids := [5],
+                    color := some { rgb := some { red := 255, green := 0, blue := 0 } },
+                    text := some { formatting := 10, scale := some {}, textStyling := some { unformattedFontSize := 12 } },
+                    gfx := some { w := 8, h := 8, imageData := [1, 2, 3] } } ],
+      registers := [ { reg := 7 } ] } ]
+
+/-- non-vacuity: different messages, same carried parts, same lines (and the lines carry the read fields) -/
+example : unreadA.map carried = unreadB.map carried ∧ unreadA ≠ unreadB ∧ encIn default unreadA = encIn default unreadB ∧
+    encIn default unreadA = [asc "HWCc#5=240", asc "HWCt#5=12|10|||1", asc "HWCg#5=0/0,8x8:AQID"] := by
+  decide +kernel
 
 /-! ## non-vacuity -/
 
